@@ -9,6 +9,8 @@
                                   -> 1 (neq_wf and neq_text = the equation) | 0w (not well-formed) | 0t (other text)
      D <eq-hex> <code-hex> <lhs> / <rhs>   the same proposal against the conditions of the fixed-point theorem of C14
                                   -> 1:<denorm_text-hex> (Denorm.dq_ok, neq_text = equation, neq_code = code) | 0d | 0t | 0c
+     Z <eq-hex>                   GTokenise.tokenise (the model's own reader of normalised equations) accepts the text  -> 1 | 0
+     DZ <eq-hex> <code-hex>       the same with the token list read by GTokenise.tokenise -> 1:<denorm_text-hex> (Denorm.dq_ok canon and GraphSrcWf.sep_ok canon hold, neq_code = code) | 0w | 0d | 0c
      P <hex>                      parse_model(check_syntax=False)      -> O:<symbols> | E:<class> | U
      Q <hex>                      parse_equation                        -> as P
      T <hex>                      m.group(0) of term_re.finditer        -> <hex>,<hex>,... *)
@@ -95,6 +97,11 @@ let answer (line : string) : unit =
     let q = { nlhs = toks_of l; nrhs = toks_of r } in
     print_endline (if not (dq_ok_canon q) then "0d" else if neq_text q <> unhex e then "0t" else if neq_code q <> unhex c then "0c"
                    else "1:" ^ hex (denorm_canon q))
+  | ["Z"; e] -> print_endline (match tokenise (unhex e) with Some _ -> "1" | None -> "0")
+  | ["DZ"; e; c] ->
+    print_endline (match tokenise (unhex e) with
+                   | None -> "0w"
+                   | Some q -> if not (dq_ok_canon q && sep_ok canon q.nrhs) then "0d" else if neq_code q <> unhex c then "0c" else "1:" ^ hex (denorm_canon q))
   | ["P"; h] -> print_endline (res_s (parse_model_nocheck (unhex h)))
   | ["P"] -> print_endline (res_s (parse_model_nocheck []))
   | ["Q"; h] -> print_endline (res_s (parse_equation_M (unhex h)))
